@@ -228,6 +228,54 @@ def flip_priority_cmps(s):
     return "".join(out)
 
 
+def _subterms(s):
+    """balanced `name(...)` / `mu{...}` substrings of s"""
+    out = []
+    stack = []
+    starts = {}
+    i = 0
+    n = len(s)
+    # identifier start positions
+    id_start = None
+    for i, ch in enumerate(s):
+        if ch.isalnum() or ch in "_:<>[]T":
+            if id_start is None:
+                id_start = i
+        else:
+            if ch in "({":
+                stack.append((id_start if id_start is not None else i, i))
+            elif ch in ")}":
+                if stack:
+                    st, op = stack.pop()
+                    out.append(s[st:i + 1])
+            id_start = None
+    return out
+
+
+def abbreviate(strings, rounds=8, minlen=45):
+    """replace repeated long sub-terms by short aliases to make skeleton diffs readable"""
+    strings = list(strings)
+    legend = []
+    for r in range(rounds):
+        counts = {}
+        for s in strings:
+            for t in set(_subterms(s)):
+                if len(t) >= minlen and "\u2039" not in t[:1]:
+                    counts[t] = counts.get(t, 0) + s.count(t)
+        best = None
+        for t, c in counts.items():
+            if c >= 2:
+                score = (len(t) - 4) * (c - 1)
+                if best is None or score > best[0]:
+                    best = (score, t)
+        if not best:
+            break
+        alias = "\u2039%s\u203a" % "ABCDEFGH"[r]
+        legend.append("%s = %s" % (alias, best[1]))
+        strings = [s.replace(best[1], alias) for s in strings]
+    return strings, legend
+
+
 def load_spec():
     if not os.path.exists(SPEC):
         return None
@@ -253,11 +301,12 @@ def r_sift(ctx, view, Q):
         missing = [x for x in want if x not in facts]
         extra = [x for x in facts if x not in want]
         ok = not missing and not extra
-        ctx.ob("R-SIFT", "%s::%s" % (QNAME[Q], name), ok, f.loc(),
-               "decision skeleton (%d facts) equals the reviewed one" % len(facts) if ok else
-               "decision skeleton deviates from the reviewed sift algorithm: missing %s ; unexpected %s" % (
-                   [m[:260] for m in missing[:3]], [e[:260] for e in extra[:3]]),
-               missing=missing, extra=extra)
+        msg = "decision skeleton (%d facts) equals the reviewed one" % len(facts)
+        if not ok:
+            ab, legend = abbreviate(missing + extra)
+            msg = ("decision skeleton deviates from the reviewed sift algorithm.  REVIEWED BUT ABSENT: %s  ||  PRESENT BUT NOT REVIEWED: %s  ||  where %s" % (
+                " ;; ".join(ab[:len(missing)][:3]) or "-", " ;; ".join(ab[len(missing):][:3]) or "-", " ; ".join(legend)))[:2400]
+        ctx.ob("R-SIFT", "%s::%s" % (QNAME[Q], name), ok, f.loc(), msg, missing=missing, extra=extra)
     if Q == DPQ:
         for a, b in DUAL_PAIRS:
             fa, fb = skels[a], skels[b]
@@ -265,8 +314,11 @@ def r_sift(ctx, view, Q):
             ok = da == sorted(fb)
             diff_a = [x for x in da if x not in fb]
             diff_b = [x for x in fb if x not in da]
-            ctx.ob("R-DUAL", "DoublePriorityQueue::%s~%s" % (a, b), ok, prog.fn("%s::%s" % (Q, b)).loc(),
-                   "the two siblings are polarity duals (%d facts each)" % len(fa) if ok else
-                   "siblings are not duals: only in dual(%s): %s ; only in %s: %s" % (a, [x[:240] for x in diff_a[:2]], b, [x[:240] for x in diff_b[:2]]))
+            msg = "the two siblings are polarity duals (%d facts each)" % len(fa)
+            if not ok:
+                ab, legend = abbreviate(diff_a + diff_b)
+                msg = ("siblings are not polarity duals.  ONLY IN dual(%s): %s  ||  ONLY IN %s: %s  ||  where %s" % (
+                    a, " ;; ".join(ab[:len(diff_a)][:2]) or "-", b, " ;; ".join(ab[len(diff_a):][:2]) or "-", " ; ".join(legend)))[:2400]
+            ctx.ob("R-DUAL", "DoublePriorityQueue::%s~%s" % (a, b), ok, prog.fn("%s::%s" % (Q, b)).loc(), msg)
         # the two mixed arms of bubble_up must be duals of each other: checked through the spec of bubble_up
     return skels
